@@ -148,7 +148,7 @@ def iter_impls(src: str, m: str):
         k = mt.start() - 1
         while k >= 0 and m[k] in ' \t\n':
             k -= 1
-        if k >= 0 and m[k] not in '};]{':
+        if k >= 0 and m[k] not in '};]{()':
             continue
         o = find_block_open(m, mt.start())
         if o < 0:
